@@ -379,7 +379,12 @@ fn main() {
             let stdin = std::io::stdin();
             let stdout = std::io::stdout();
             let mut out = std::io::BufWriter::with_capacity(1 << 20, stdout.lock());
+            let mut n_done = 0usize;
             for line in stdin.lock().lines() {
+                n_done += 1;
+                if n_done % 64 == 0 {
+                    out.flush().unwrap();
+                }
                 let line = line.unwrap();
                 let line = line.trim();
                 if line.is_empty() {
